@@ -186,7 +186,11 @@ CHECKS['C04'] = dict(
     text=('Over the C08 run-history model, proved for every state and app: after a complete run every label of the '
           'sequence is recorded whether the app was installed fresh or upgraded from any earlier state '
           '(C04_all_recorded, C04_paths_converge), and a second run plans, executes and records nothing '
-          '(C04_second_run_noop). That schema, data and stored signature converge is the business of C01/C02/C03; it is '
+          '(C04_second_run_noop); the project signature reached is the same whether the pending evolutions are '
+          'simulated one release per run or all in one run, for every signature, every list of evolutions and every '
+          'mutation kind (C04_signature_stepwise_eq_direct; a RenameAppLabel must rename to the configured label, with a '
+          'kernel-checked counterexample otherwise), tied to the real mutation classes on every generated history. '
+          'That schema and data converge is the business of C01/C02/C03; it is '
           'observed here on generated histories V0..Vn: every start point, stepwise vs direct vs fresh, through '
           'Evolver.evolve, `evolve --execute` and the replaced `migrate`; final schema, preserved rows, recorded '
           'labels, stored-vs-computed signature, and a second run that must require nothing and write nothing.'),
